@@ -98,11 +98,11 @@ SetFlagsAct == \E s \in SizeClass : \E page \in Pages(s) : \E K \in 2 .. 4 : \E 
 TranslatePageAct == \E s \in SizeClass : \E page \in Pages(s) :
                 Simple("translate_page", TranslatePageSem(ent, amap, s, page), s, page, 0, {})
 
-(* ranges: whole address space, every pair a <= b of 4 KiB pages of the universe (+ the page
-   after each), and one reversed (empty) range *)
+(* ranges: whole address space, every pair of 4 KiB pages of the universe (+ the page after
+   each) - a <= b and reversed (empty) ones alike *)
 RangeBounds == Pages(0) \cup { Add(p, W(4096)).v : p \in Pages(0) }
 CleanRanges == { <<FullRangeA, FullRangeB>>, <<FullRangeB, FullRangeA>> }
-               \cup { rg \in RangeBounds \X RangeBounds : Le(rg[1], rg[2]) }
+               \cup (RangeBounds \X RangeBounds)
 CleanAct ==
     LET T == Tables(ent)
     IN \E rg \in CleanRanges :
